@@ -30,6 +30,10 @@ def members_stream():
             ("stepd", "STEPD", 0, None), ("cusum", "CUSUM", 0, "col0"), ("kdq", "KdqTreeStreaming", 1, None)]
 
 
+def members_labels():
+    return [("ddm", "DDM", 0, None), ("stepd", "STEPD", 0, None), ("eddm", "EDDM", 0, None), ("aa", "ADWINAccuracy", 0, None)]
+
+
 def members_batch():
     return [("kdq", "KdqTreeBatch", 0, None), ("hd", "HDDDM", 2, "first2"), ("nn", "NNDVI", 0, None), ("cd", "CDBD", 2, "col0")]
 
@@ -59,7 +63,9 @@ def check(scn):
     from menelaus.ensemble import StreamingEnsemble, BatchEnsemble
     stream, el, seed, n, subset, do_reset = scn["stream"], scn["election"], scn["seed"], scn["n"], scn["subset"], scn.get("reset_at")
     rng = np.random.RandomState(seed)
-    spec = [m for i, m in enumerate(members_stream() if stream else members_batch()) if subset[i % len(subset)]]
+    labels_only = scn.get("labels_only")
+    spec = [m for i, m in enumerate((members_labels() if labels_only else members_stream()) if stream else members_batch())
+            if subset[i % len(subset)]]
     if not spec:
         return None
     mk = lambda: {k: C.construct(name, v)[0] for k, name, v, s in spec}
@@ -86,6 +92,8 @@ def check(scn):
             acc = 0.9 if lev == 0 else 0.3
             yt = int(rng.randint(0, 2))
             yp = yt if rng.rand() < acc else 1 - yt
+            if labels_only:
+                X = None            # concept-drift members ignore X: an ensemble of them may be updated with labels alone
         else:
             X = pd.DataFrame(lev + rng.randn(40, 3), columns=["a", "b", "c"])
             yt = yp = None
@@ -135,10 +143,21 @@ def run(tier, seed, repo, focus=None):
                  "StreamingEnsemble (ADWIN, PageHinkley, DDM, STEPD, CUSUM, KdqTreeStreaming subsets) and BatchEnsemble "
                  "(KdqTreeBatch, HDDDM, NNDVI, CDBD subsets) with column selectors x 6 elections: after every update each "
                  "member equals a twin updated alone, drift_state equals a twin election over the twins, drift_states / "
-                 "retraining_recs / counters match; reset and set_reference fan-out; same numpy seed schedule; "
+                 "retraining_recs / counters match; labels-only ensembles updated with X=None; reset and set_reference fan-out; same numpy seed schedule; "
                  "non-trivial = every scenario", {"seeds": 1 if quick else 4})
     known = load_known()
     subsets = [[1], [1, 0], [0, 1, 1], [1, 1, 0, 1]]
+    # labels-only ensembles (X is None on every update)
+    for el in ("majority", "min1", "confirmed", "ordered"):
+        for subset in ([1], [1, 1, 0, 1], [0, 1, 1]):
+            scn = {"stream": True, "election": el, "seed": seed, "n": 120, "subset": subset, "reset_at": None, "labels_only": True}
+            try:
+                msg = check(scn)
+            except Exception as e:
+                msg = "%s: %s" % (type(e).__name__, e)
+            res.count(key=repr(scn), nontrivial=True, n=scn["n"], check="labels-only ensemble vs solitary twins")
+            if msg:
+                res.violation("ensemble: " + msg, REPLAY % dict(verif=VERIF, scn=scn), known)
     for stream in (True, False):
         for el in ("majority", "min1", "min2", "ordered", "confirmed", "confirmed2"):
             for si, subset in enumerate(subsets):
